@@ -646,6 +646,10 @@ func c16(c *core.Ctx) {
 					if revertsTo(ci, revM, func(v ssa.Value) bool { return snapVals[st.Canon(v)] }, 0) {
 						return false // path satisfied
 					}
+					// helper form: h(snapshot, err) reverts when err is non-nil; a return of that very error afterwards is covered
+					if sv, ev, is := condRevertCall(ci, revM); is && snapVals[st.Canon(sv)] {
+						st.Mark(valKey(st.Canon(ev)))
+					}
 					return true
 				},
 				Return: func(r *ssa.Return, st *core.PathState) {
@@ -655,7 +659,7 @@ func c16(c *core.Ctx) {
 						if !core.IsErrorType(res.At(i).Type()) {
 							continue
 						}
-						if st.IsNil(r.Results[i]) != core.Yes {
+						if st.IsNil(r.Results[i]) != core.Yes && !st.Marked(valKey(st.Canon(r.Results[i]))) {
 							bad = append(bad, c.Pos(r.Pos()))
 						}
 					}
